@@ -72,14 +72,53 @@ func runC16(r *Run) {
 			}
 		}
 		nm := 0
+		var methods []*ssa.Function
 		for _, fn := range pkgFns {
 			if fn.Signature.Recv() == nil || typeBaseName(fn.Signature.Recv().Type()) != named.Obj().Name() || fn.Parent() != nil {
 				continue
 			}
+			methods = append(methods, fn)
+		}
+		// lock level every caller holds when it enters an unexported helper method of the same
+		// receiver (a helper that takes no lock itself runs inside its callers' critical section)
+		reps := map[*ssa.Function]*lockReport{}
+		for _, fn := range methods {
+			reps[fn] = analyseLocks(fn, mu, immutable)
+		}
+		heldAtEntry := map[*ssa.Function]lockLevel{}
+		for _, fn := range methods {
+			if fn.Object() != nil && fn.Object().Exported() || reps[fn].Acquisitions > 0 {
+				continue
+			}
+			lvl, n := lkWrite, 0
+			for _, caller := range methods {
+				for c, l := range reps[caller].SelfCalls {
+					if c.Call.StaticCallee() == fn {
+						n++
+						if l < lvl {
+							lvl = l
+						}
+					}
+				}
+			}
+			if n > 0 {
+				heldAtEntry[fn] = lvl
+			}
+		}
+		for _, fn := range methods {
 			nm++
-			rep := analyseLocks(fn, mu, immutable)
+			rep := reps[fn]
 			con := FuncName(fn)
 			pos := w.Pos(fn.Pos())
+			if lvl, isHelper := heldAtEntry[fn]; isHelper && rep.Accesses > 0 {
+				hrep := analyseLocksFrom(fn, mu, immutable, lvl)
+				detail := fmt.Sprintf("helper entered with the lock held by every caller (weakest level %d): %d guarded accesses (%d writes) to %v", lvl, hrep.Accesses, hrep.Writes, setKeys(hrep.GuardedUsed))
+				for _, f := range hrep.Findings {
+					detail += "; " + w.InstrPos(f.Instr) + ": " + f.Msg
+				}
+				r.Check(len(hrep.Findings) == 0 && hrep.Acquisitions == 0, "C16.1", con, pos, detail)
+				continue
+			}
 			if rep.Accesses == 0 {
 				r.Pass("C16.1", con, pos, "no guarded field accessed")
 				continue
@@ -107,7 +146,7 @@ func runC16(r *Run) {
 	if fn := w.Fn("tmmemstore.FinalizationStore.SaveFinalization"); fn == nil {
 		r.Fail("C16.3", "SaveFinalization", "", "method not found")
 	} else {
-		a := w.A(fn)
+		a := w.AU(fn)
 		ups := mapUpdates(a, "p0.byHeight")
 		miss, _ := a.IfEdges("p0.byHeight[p2]#1", false, nil)
 		for i, up := range ups {
@@ -131,7 +170,7 @@ func runC16(r *Run) {
 		r.Check(containsPrefix(rets, "lit:tmstore.FinalizationOverwriteError"), "C16.3", FuncName(fn)+"(refusal)", w.Pos(fn.Pos()), "returns FinalizationOverwriteError; returns: "+strings.Join(rets, " | "))
 	}
 	if fn := w.Fn("tmmemstore.FinalizationStore.LoadFinalizationByHeight"); fn != nil {
-		a := w.A(fn)
+		a := w.AU(fn)
 		hit, _ := a.IfEdges("p0.byHeight[p2]#1", true, nil)
 		for i, ret := range a.Returns() {
 			con := fmt.Sprintf("%s#return%d", FuncName(fn), i+1)
@@ -159,7 +198,7 @@ func runC16(r *Run) {
 			r.Fail("C16.4", vr.fn, "", "method not found")
 			continue
 		}
-		a := w.A(fn)
+		a := w.AU(fn)
 		ups := mapUpdates(a, vr.m)
 		miss, _ := a.IfEdges(vr.m+"["+vr.scheme+"]#1", false, nil)
 		okErr, _ := a.IfEdges("("+strings.TrimSuffix(vr.scheme, "#0")+"#1 == nil)", true, nil)
@@ -195,7 +234,7 @@ func runC16(r *Run) {
 			r.Fail("C16.5", lr.fn, "", "method not found")
 			continue
 		}
-		a := w.A(fn)
+		a := w.AU(fn)
 		hit, _ := a.IfEdges(lr.lookup+"#1", true, nil)
 		for i, ret := range a.Returns() {
 			con := fmt.Sprintf("%s#return%d", lr.fn, i+1)
@@ -222,7 +261,7 @@ func runC16(r *Run) {
 			r.Fail("C16.5", wr.set, "", "set/get pair not found")
 			continue
 		}
-		sa, ga := w.A(set), w.A(get)
+		sa, ga := w.AU(set), w.A(get)
 		// setter: field i <- param i+2
 		got := map[string]string{}
 		sa.Instrs(func(in ssa.Instruction) {
@@ -263,7 +302,7 @@ func runC16(r *Run) {
 
 	// ---------- C16.6 key derivation of the remaining writers; vote kinds kept apart
 	if fn := w.Fn("tmmemstore.CommittedHeaderStore.SaveCommittedHeader"); fn != nil {
-		a := w.A(fn)
+		a := w.AU(fn)
 		for i, up := range mapUpdates(a, "p0.chs") {
 			con := fmt.Sprintf("%s#store%d", FuncName(fn), i+1)
 			r.Check(a.sh.Of(up.Key).String() == "p2.Header.Height" && a.sh.Of(up.Value).String() == "p2", "C16.6", con, w.InstrPos(up),
@@ -279,7 +318,7 @@ func runC16(r *Run) {
 			r.Fail("C16.6", kr.fn, "", "method not found")
 			continue
 		}
-		a := w.A(fn)
+		a := w.AU(fn)
 		found := false
 		a.Instrs(func(in ssa.Instruction) {
 			up, ok := in.(*ssa.MapUpdate)
@@ -302,7 +341,7 @@ func runC16(r *Run) {
 		}
 	}
 	if fn := w.Fn("tmmemstore.RoundStore.LoadRoundState"); fn != nil {
-		a := w.A(fn)
+		a := w.AU(fn)
 		for i, ret := range a.Returns() {
 			con := fmt.Sprintf("%s#return%d", FuncName(fn), i+1)
 			pv, pc := a.sh.Of(ret.Results[1]), a.sh.Of(ret.Results[2])
@@ -368,7 +407,7 @@ func actionStoreRules(r *Run, rule string) {
 			r.Fail(rule, ar.fn, "", "method not found")
 			continue
 		}
-		a := w.A(fn)
+		a := w.AU(fn)
 		ups := mapUpdates(a, "p0.ras")
 		if len(ups) == 0 {
 			r.Fail(rule, ar.fn+"#store", w.Pos(fn.Pos()), "no write to the action map found")
